@@ -30,6 +30,12 @@ O2  lookup precedence, bounded-exhaustive.  For the names n, now, today: every s
     render / extends contexts the partial's OWN loader matter is a further layer: whether
     it is visible at all is undocumented (HEAD ignores it), but it may never outrank a
     block, a local or a render() argument.
+    A `sibling` context puts the lookup in the argument expression of a sibling binding
+    of the same tag (with, include/render keyword arguments and `with … as`, call,
+    translate): arguments are evaluated in the enclosing scope.  A `chain` context puts
+    it in a partial rendered / macro called from inside an overriding block.  The loader
+    families also use docs-style FileSystemLoader / CachingFileSystemLoader SUBCLASSES
+    overriding get_source only, both, or get_source_async only, and a ChoiceLoader.
 O2c the same oracle on the 2nd and 3rd get_template() of one name through front-matter
     style loaders built on CachingDictLoader, CachingFileSystemLoader (real files in a
     temp dir, async under a private event loop) and CachingChoiceLoader, sync and async,
@@ -1238,6 +1244,11 @@ CONTEXTS = {
     # the same name with assign/capture, for, with and a counter: none of that may show
     "chain": ["leaf-render", "leaf-render-kw", "leaf-macro", "mid-render", "mid-macro",
               "super-render", "super-macro"],
+    # multi-binding constructs: the lookup site is the argument expression of a SIBLING
+    # binding of the same tag (`{% with n: 'vB', s: n %}{{ s }}`): arguments are
+    # evaluated in the enclosing scope, so the sibling's new binding must not be seen
+    "sibling": ["with", "with-rev", "include-kw", "include-alias", "render-kw",
+                "render-alias", "call-kw", "translate"],
     "lambda": ["root:" + f for f in ("map", "where", "reject", "find", "find_index", "has",
                                      "sort", "sort_natural", "sort_numeric", "uniq",
                                      "compact", "sum", "index")]
@@ -1247,7 +1258,7 @@ CONTEXTS = {
 # four api/mode combinations and only the nil/false falsy profiles
 LATE_VARIANTS = {"tablerow-0", "withcap-0", "withdec-0", "alias", "alias-for",
                  "forblock-0", "withblock-0", "around-for", "around-with"}
-NO_FALSY_CONTEXTS = ("lambda", "chain")
+NO_FALSY_CONTEXTS = ("lambda", "chain", "sibling")
 # what a lambda filter prints when its parameter (bound to each item) wins inside the
 # lambda body; any outer binding of the same name gives something else
 LAMBDA_EXPR = {
@@ -1275,7 +1286,7 @@ def variants_for(name: str, context: str) -> list[str]:
 
 
 def site_count(context: str, variant: str, only: str | None, falsy: Any) -> int:
-    if only or context == "lambda" or variant.startswith("translate"):
+    if only or context in ("lambda", "sibling") or variant.startswith("translate"):
         return 1
     if context == "chain":
         return NSITES
@@ -1340,6 +1351,25 @@ def build(name: str, mask: int, context: str, variant: str, only: str | None = N
                     + marker + "{% endtranslate %}")
         return "{% translate " + ", ".join(targs) + " %}" + marker + "{% endtranslate %}"
 
+    if context == "sibling":
+        smark = f"{OPEN}out:{{{{ c10s }}}}{CLOSE}"
+        pre = inc + asg
+        nb = f"{N}: {vb}, " if B else ""
+        if variant == "with":
+            return {"root": pre + f"{{% with {nb}c10s: {N} %}}" + smark + "{% endwith %}"}
+        if variant == "with-rev":
+            nb2 = f", {N}: {vb}" if B else ""
+            return {"root": pre + f"{{% with c10s: {N}{nb2} %}}" + smark + "{% endwith %}"}
+        if variant == "translate":
+            return {"root": pre + f"{{% translate {nb}c10s: {N} %}}" + smark + "{% endtranslate %}"}
+        if variant == "call-kw":
+            return {"root": f"{{% macro m {N}, c10s %}}" + smark + "{% endmacro %}" + pre
+                    + f"{{% call m {nb}c10s: {N} %}}"}
+        tag = variant.split("-")[0]
+        if variant.endswith("-kw"):
+            return {"root": pre + f"{{% {tag} 'p', {nb}c10s: {N} %}}", "p": smark}
+        nb3 = f", {N}: {vb}" if B else ""
+        return {"root": pre + f"{{% {tag} 'p' with {N} as c10s{nb3} %}}", "p": smark}
     if context == "lambda":
         where, fname = variant.split(":")
         expr = f"{OPEN}out:" + LAMBDA_EXPR[fname][0].replace("%N", N) + CLOSE
@@ -1594,6 +1624,8 @@ class O2:
             if with_r:
                 present.add("render-arg")
             args = {name: vals["render-arg"]} if with_r else {}
+            if context == "sibling":
+                present.discard("block")  # the sibling's binding is not in scope yet
             exp = expected_layer(name, present)
             if falsy and exp in targets:
                 label = f"{exp}={fk}"
@@ -1674,7 +1706,10 @@ class O2:
                     actual = "render-arg of a previous render"
                 viol(
                     f"precedence:{label} shadowed-by {actual}{suffix}",
-                    f"{{{{ {name} }}}} at site '{kind}' with layers {sorted(present)} printed "
+                    (f"the argument expression `c10s: {name}` of a tag that also binds {name} "
+                     f"(sibling argument), read back as {{{{ c10s }}}}," if context == "sibling"
+                     else f"{{{{ {name} }}}} at site '{kind}'")
+                    + f" with layers {sorted(present)} printed "
                     f"{text!r} (layer {actual}); documented order gives {shown} "
                     f"({want if want is not None else 'a date'!r}); render #{si + 1} of the template",
                     {"step": si, "site": kind, "printed": text, "expected_layer": exp},
@@ -1777,12 +1812,13 @@ def _run_o2(spec: dict[str, Any], ctx: Ctx) -> None:
             if tier != "quick":
                 apis = ALL_APIS
             elif context in NO_FALSY_CONTEXTS or variant.startswith("translate"):
-                apis = [APIS[(bi + vi) % len(APIS)], APIS[(bi + vi + 1) % len(APIS)]]
+                apis = [APIS[(bi + vi) % len(APIS)], APIS[(bi + vi + 2) % len(APIS)]]
             elif variant in LATE_VARIANTS:
                 apis = [APIS[(bi + vi) % len(APIS)]]
             elif vi:
-                # two of the four api/mode/argument-style combinations, rotating
-                apis = [APIS[(bi + vi) % len(APIS)], APIS[(bi + vi + 1) % len(APIS)]]
+                # one of the four api/mode/argument-style combinations, rotating over
+                # subsets and variants (the first variant of a context runs all four)
+                apis = [APIS[(bi + vi) % len(APIS)]]
             else:
                 apis = APIS
             for api, mode, style in apis:
@@ -1828,7 +1864,9 @@ def _run_o2(spec: dict[str, Any], ctx: Ctx) -> None:
                             # (nil under StrictUndefined: half); the other profiles the
                             # first variant plus a rotating third of the rest
                             if fk in ("nil", "false") and fmode == "inner":
-                                if strict and fk == "nil" and (m + vi) % 2:
+                                if strict and fk == "nil" and (m + vi) % 3:
+                                    continue
+                                if fk == "false" and (m + vi) % 2:
                                     continue
                                 if variant in LATE_VARIANTS and (strict or (m + vi) % 2):
                                     continue
@@ -1952,6 +1990,12 @@ def _replay_tagname(wit: dict[str, Any], ctx: Ctx) -> None:  # noqa: ARG001
 # ---------------------------------------------------------------------------------------
 
 CACHED_LOADERS = ("cdict", "cfs", "cchoice")
+# docs-style front-matter SUBCLASSES of the file-system loaders (docs/loading_templates.md
+# overrides get_source only): non-caching and caching, overriding get_source only, both,
+# or get_source_async only (then matter exists for the async API only), and a plain
+# ChoiceLoader delegating to one of them.  Every load of a non-caching kind is fresh.
+SUBCLASS_LOADERS = ("fs_sync", "fs_both", "fs_async", "cfs_sync", "choice_fs_sync")
+ALL_LOADER_KINDS = CACHED_LOADERS + SUBCLASS_LOADERS
 CACHED_APIS = ("get_template", "get_template_async")
 CACHED_PATTERNS = ("same", "different", "none")  # globals= passed by the later loads
 CACHED_CONTEXTS = [("root", "with-0"), ("include", "plain"), ("render", "with"),
@@ -2011,6 +2055,37 @@ class O2Cached:
                 )
                 return TemplateSource(source, name, uptodate, self.matter.get(template_name))
 
+        from liquid2 import ChoiceLoader
+        from liquid2 import FileSystemLoader
+
+        def _sync_src(self, env, template_name, *, context=None, **kwargs):  # noqa: ANN001, ANN003, ANN202
+            source, name, uptodate, _ = super(type(self), self).get_source(
+                env, template_name, context=context, **kwargs
+            )
+            return TemplateSource(source, name, uptodate, self.matter.get(template_name))
+
+        async def _async_src(self, env, template_name, *, context=None, **kwargs):  # noqa: ANN001, ANN003, ANN202
+            source, name, uptodate, _ = await super(type(self), self).get_source_async(
+                env, template_name, context=context, **kwargs
+            )
+            return TemplateSource(source, name, uptodate, self.matter.get(template_name))
+
+        def subclass(base: type, name: str, sync: bool, asyn: bool) -> type:
+            ns: dict[str, Any] = {}
+            if sync:
+                ns["get_source"] = _sync_src
+            if asyn:
+                ns["get_source_async"] = _async_src
+            return type(name, (base,), ns)
+
+        fs_styles = {
+            "fs_sync": subclass(FileSystemLoader, "FrontMatterLoaderSyncOnly", True, False),
+            "fs_both": subclass(FileSystemLoader, "FrontMatterLoaderBoth", True, True),
+            "fs_async": subclass(FileSystemLoader, "FrontMatterLoaderAsyncOnly", False, True),
+            "cfs_sync": subclass(CachingFileSystemLoader, "CachingFrontMatterLoaderSyncOnly",
+                                 True, False),
+        }
+
         def make(kind: str, templates: dict[str, str], matter: dict[str, Any],  # noqa: ANN202
                  auto_reload: bool = True):
             if kind == "cdict":
@@ -2023,7 +2098,15 @@ class O2Cached:
             for tname, src in templates.items():
                 with open(os.path.join(self.tmp, tname), "w", encoding="utf-8") as f:
                     f.write(src)
-            return MatterCachingFileSystemLoader(self.tmp, matter, auto_reload)
+            if kind == "cfs":
+                return MatterCachingFileSystemLoader(self.tmp, matter, auto_reload)
+            style = kind.removeprefix("choice_")
+            if style == "cfs_sync":
+                ld = fs_styles[style](self.tmp, auto_reload=auto_reload)
+            else:
+                ld = fs_styles[style](self.tmp)
+            ld.matter = matter
+            return ChoiceLoader([ld]) if kind.startswith("choice_") else ld
 
         self.make_loader = make
 
@@ -2037,8 +2120,10 @@ class O2Cached:
             shutil.rmtree(self.tmp, ignore_errors=True)
 
     def run(self, kind: str, coro):  # noqa: ANN001, ANN201
-        # the file-system loader's async path needs a running loop (run_in_executor)
-        return self.loop.run_until_complete(coro) if kind == "cfs" else drive(coro)
+        # the file-system loaders' async path needs a running loop (run_in_executor)
+        if kind in ("cdict", "cchoice"):
+            return drive(coro)
+        return self.loop.run_until_complete(coro)
 
     def env(self, name: str, with_e: bool):  # noqa: ANN201
         k = (name, with_e)
@@ -2075,8 +2160,10 @@ class O2Cached:
         keys: list[str] = []
         nsites = 0
         self.view = []
-        suffix = (" on cached reload" if context == "root"
-                  else f" in {context}-{variant} on cached reload")
+        where = "" if context == "root" else f" in {context}-{variant}"
+        suffix = where + " on cached reload"
+        # a wrong layer already on the first load is the loader path's doing
+        first_suffix = where + f" on first load ({kind}, {api})"
 
         def viol(key: str, what: str, extra: dict[str, Any]) -> None:
             keys.append(key)
@@ -2191,9 +2278,10 @@ class O2Cached:
                     elif actual == "template-global" and k > 1 and pattern != "same":
                         actual = "template-global of an earlier caller"
                     viol(
-                        f"precedence:{exp or 'undefined'} shadowed-by {actual}{suffix}",
+                        f"precedence:{exp or 'undefined'} shadowed-by {actual}"
+                        f"{first_suffix if k == 1 else suffix}",
                         f"{{{{ {name} }}}} at site '{skind}' after get_template #{k} of 'root' "
-                        f"through a caching {kind} matter loader ({api}, auto_reload={auto_reload}, "
+                        f"through the {kind} matter loader ({api}, auto_reload={auto_reload}, "
                         f"later loads pass {pattern} globals) with layers {sorted(others | set(t_latest))} printed "
                         f"{text!r} (layer {actual}); documented order gives layer {exp} "
                         f"({wants[0] if wants[0] is not None else 'a date'!r})",
@@ -2224,9 +2312,14 @@ class O2Cached:
 
 
 def _cached_cases(name: str, base: int, tier: str) -> Iterator[dict[str, Any]]:
-    for li, kind in enumerate(CACHED_LOADERS):
+    for li, kind in enumerate(ALL_LOADER_KINDS):
         for ai, api in enumerate(CACHED_APIS):
+            if kind == "fs_async" and api == "get_template":
+                continue  # that subclass supplies matter to the async API only
             for pi, pattern in enumerate(CACHED_PATTERNS):
+                if (tier == "quick" and kind in SUBCLASS_LOADERS
+                        and (base + li + ai) % len(CACHED_PATTERNS) != pi):
+                    continue  # quick: one globals pattern per case for the subclass kinds
                 if tier == "quick":
                     cvs = [CACHED_CONTEXTS[(base + li + ai * 2 + pi) % len(CACHED_CONTEXTS)]]
                 else:
@@ -2287,6 +2380,7 @@ def shards(tier: str, seed: int) -> list[dict[str, Any]]:  # noqa: ARG001
                 specs.append({"kind": "layers", "name": name, "context": context, "i": i, "n": n})
         specs.append({"kind": "layers", "name": name, "context": "lambda", "i": 0, "n": 1})
         specs.append({"kind": "layers", "name": name, "context": "chain", "i": 0, "n": 1})
+        specs.append({"kind": "layers", "name": name, "context": "sibling", "i": 0, "n": 1})
     specs.append({"kind": "layers", "name": COUNT_NAME, "context": "all", "i": 0, "n": 1})
     ncached = 2 if tier == "quick" else 6
     for name in NAMES:
@@ -2321,7 +2415,7 @@ def floors(tier: str) -> dict[str, int]:
         "falsy_site_checks": 400_000,
         # every subset again on the 2nd and 3rd get_template() through caching matter loaders
         "set:layer_subsets_cached": len(NAMES) * 128,
-        "set:cached_loaders": len(CACHED_LOADERS) * len(CACHED_APIS),
+        "set:cached_loaders": len(ALL_LOADER_KINDS) * len(CACHED_APIS) - 1,
         "set:cached_loader_modes": len(CACHED_LOADERS) * 2 * len(CACHED_PATTERNS),
         "set:cached_contexts": len(CACHED_CONTEXTS) * len(CACHED_PATTERNS),
         "cached_reloads": 6000,
@@ -2334,6 +2428,7 @@ def floors(tier: str) -> dict[str, int]:
         "set:layer_subsets_count": 128,
         "set:layer_subsets_lambda": 192,
         "set:layer_subsets_chain": len(NAMES) * 128,
+        "set:layer_subsets_sibling": len(NAMES) * 128,
         "tagname_site_checks": 300,
         "set:tagnames": len(TAGNAMES),
         # the partial's own loader matter as a layer
